@@ -633,7 +633,7 @@ def c05_oracle(case, out, model_out):
 
 
 PROPS["C02"] = {
-    "gen": c02_gen, "oracle": tree_oracle,
+    "gen": c02_gen, "oracle": tree_oracle, "extra_props": ["EndToEnd"],
     "rule": "all ASTs a o1 b o2 c over the 14x14 ordered binary-operator pairs in both groupings, with prefix, call and the 9 assignment operators, rendered with exactly the required parentheses and with redundant ones; random ASTs of depth <= 6 over all operators with random separators; all token sequences of length <= 4 (quick) / 5 (thorough) over a 16-token alphabet (model vs implementation); non-trivial = more than one token",
     "nontrivial": lambda c, out: len(c[0]) > 16,
     "assumptions": ["the reference tree of tools/gen.py (tree_of) is the Python twin of Spec/Grammar.v tree_of; used only to search for failing inputs",
@@ -783,7 +783,7 @@ def c13_oracle(case, out, model_out):
 
 
 PROPS["C13"] = {
-    "gen": c13_gen, "oracle": c13_oracle,
+    "gen": c13_gen, "oracle": c13_oracle, "extra_props": ["C13Eval"],
     "rule": "all token sequences of length <= 4 (quick) / 5 (thorough) over a 16-token alphabet, random sequences up to 10 tokens over the full alphabet, near misses of well-formed programs (token deleted / inserted / swapped); each is classified by an independent recogniser (parenthesis counter + operand/operator automaton with the function-application and empty-element rules) and precompiled and evaluated in an empty and a populated context; non-trivial = classified ill-formed or unbalanced",
     "nontrivial": lambda c, out: c[1].get("reason") is not None or not c[1].get("balanced", True),
     "exhaustive": True,
@@ -2080,7 +2080,7 @@ def c07_post(cases, impl, model):
 
 
 PROPS["C07"] = {
-    "gen": c07_gen, "oracle": c07_oracle, "post": c07_post,
+    "gen": c07_gen, "oracle": c07_oracle, "post": c07_post, "extra_props": ["EndToEnd"],
     "rule": "token sequences (well-formed programs, near misses, random tokens incl. scientific-notation fragments), each rendered with single spaces, with no separator where fusion cannot occur, and with random valid separator assignments (all 25 Unicode whitespace characters, /* */ comments, // comments to end of line); all renderings of one sequence must precompile identically; every whitespace character alone; non-whitespace look-alikes; unterminated /*; comment markers inside strings; non-trivial = more than one token",
     "nontrivial": lambda c, out: len(c[1].get("tokens", [0, 0])) > 1,
     "assumptions": ["valid separator rule of tools/gen.py (fuses, sci_risk): twin of Spec/LexSpec.v valid_seps; used only to search for failing inputs",
